@@ -88,7 +88,10 @@ def run_input(desc, seed, res):
             try:
                 d = sa if vi % 2 else address.DeviceShort(sa)
                 i = idx if vi % 2 else address.InstanceNumber(idx)
-                got = bus.run_sequence(query_input_value(d, i, resolution if explicit else None))
+                if vi % 4 == 1:
+                    got = bus.run_sequence(query_input_value(instance=i, device=d, resolution=resolution if explicit else None))
+                else:
+                    got = bus.run_sequence(query_input_value(d, i, resolution if explicit else None))
             except Exception as e:
                 res.violation(f"C13/input/raised/{type(e).__name__}", f"resolution {resolution} value {v}: {type(e).__name__}: {e}", wit)
                 continue
@@ -152,8 +155,11 @@ def run_filters(desc, seed, res):
             res.hit(f"filters_{width}")
             wit = {"sequence": "SetEventFilters", "enum": E.__name__, "enum_width": width, "filter": v, "stale_dtr": stale}
             try:
-                got = bus.run_sequence(SetEventFilters(address.DeviceShort(sa) if vi % 2 else sa,
-                                                       address.InstanceNumber(idx) if vi % 2 else idx, fv))
+                if vi % 3 == 0:
+                    got = bus.run_sequence(SetEventFilters(filter_value=fv, instance=address.InstanceNumber(idx), device=address.DeviceShort(sa)))
+                else:
+                    got = bus.run_sequence(SetEventFilters(address.DeviceShort(sa) if vi % 2 else sa,
+                                                           address.InstanceNumber(idx) if vi % 2 else idx, fv))
             except Exception as e:
                 res.violation(f"C13/set-filter/raised/{type(e).__name__}", f"{E.__name__}({v:#x}): {type(e).__name__}: {e}", wit)
                 continue
